@@ -9,7 +9,7 @@ import (
 
 func init() {
 	props["C05"] = c05
-	floors["C05"] = map[string]int{"C05.R1": 6, "C05.R2": 5, "C05.R3": 1, "C05.R4": 4, "C05.R5": 2, "C05.R6": 2}
+	floors["C05"] = map[string]int{"C05.R1": 7, "C05.R2": 9, "C05.R3": 1, "C05.R4": 4, "C05.R5": 2, "C05.R6": 2}
 }
 
 // schemeStores lists the stores to <x>.URL.Scheme in a function.
@@ -95,9 +95,19 @@ func c05(r *Report) {
 				r.Decide("callgraph", fmt.Sprintf("URL.Scheme store in %s", fnName(f)), f == handle, "only the exchange function sets the scheme", "URL.Scheme is written outside the exchange function", st.Pos())
 			}
 		}
-		secs := plainCalls(handle, "(*M.Session).IsSecure")
+		// the IsSecure() test whose true edge leads to the https store
+		var secs []*ssa.Call
+		for _, c := range plainCalls(handle, "(*M.Session).IsSecure") {
+			for _, e := range branchesOn(c) {
+				for _, st := range schemeStores(handle) {
+					if s, isC := constString(st.Val); isC && s == "https" && edgeDominatesTrue(e, st.Block()) {
+						secs = append(secs, c)
+					}
+				}
+			}
+		}
 		if len(secs) != 1 {
-			r.Fail("path", "(*M.Proxy).handle: IsSecure tested", fmt.Sprintf("found %d IsSecure calls, want 1", len(secs)), nil, handle.Pos())
+			r.Fail("path", "(*M.Proxy).handle: IsSecure tested", fmt.Sprintf("found %d IsSecure() tests guarding an https store, want 1", len(secs)), nil, handle.Pos())
 			return
 		}
 		es := branchesOn(secs[0])
@@ -138,6 +148,12 @@ func c05(r *Report) {
 		p := g.PathTo(blockStart(es[0].True), true, isHTTPS, consumer)
 		r.Paths++
 		r.Decide("path", "(*M.Proxy).handle: secure edge stores https before the modifier", p == nil, "every path from IsSecure()==true passes URL.Scheme = \"https\"", "a secure session reaches the request modifier without the scheme being forced to https", secs[0].Pos())
+		// the test itself is on every path from the request read to the modifier
+		if rdc := plainCalls(handle, "(*M.Proxy).readRequest"); len(rdc) == 1 {
+			pp := g.PathTo([]ssa.Instruction{rdc[0]}, false, func(i ssa.Instruction) bool { return i == ssa.Instruction(secs[0]) }, consumer)
+			r.Paths++
+			r.Decide("path", "(*M.Proxy).handle: every request is tested for a secure session before the modifier", pp == nil, "IsSecure() is on every path from the request read to the modifier / CONNECT hand-off", "some requests (a particular target form, method, ...) reach the modifier without the secure-session test: inside a MITM tunnel they keep their own scheme and go upstream in cleartext", secs[0].Pos())
+		}
 		// and nothing overwrites it afterwards
 		var bad []ssa.Instruction
 		for _, in := range instrs(handle) {
@@ -203,6 +219,63 @@ func c05(r *Report) {
 			}
 			forms[form] = true
 			r.Decide("flow", "(*M.Proxy).handle: req.TLS store ("+form+" connection)", form != "", "ConnectionState() of this exchange's connection asserted to *tls.Conn ("+form+" form), on the ok edge", "req.TLS is set from something other than the TLS state of this exchange's connection", st.Pos())
+		}
+		// the connection type is examined for every request, and a TLS connection always gets its state attached
+		if rdc := plainCalls(handle, "(*M.Proxy).readRequest"); len(rdc) == 1 {
+			consumer := func(i ssa.Instruction) bool {
+				_, hc := isCall(i, nHCR)
+				return hc || isReqMod(i)
+			}
+			for _, in := range instrs(handle) {
+				ta, isTA := in.(*ssa.TypeAssert)
+				if !isTA || !ta.CommaOk || ta.X != connP {
+					continue
+				}
+				at := ta.AssertedType.String()
+				if at != "*crypto/tls.Conn" && at != "*"+M+"/trafficshape.Conn" {
+					continue
+				}
+				if at != "*crypto/tls.Conn" {
+					// only the assertion that leads to a TLS store
+					leads := false
+					for _, in2 := range instrs(handle) {
+						if st, ok := in2.(*ssa.Store); ok {
+							if fa, ok := st.Addr.(*ssa.FieldAddr); ok && fa.X == req && fieldObj(fa).Name() == "TLS" && okEdgeDominates(ta, st.Block()) {
+								leads = true
+							}
+						}
+					}
+					if !leads {
+						continue
+					}
+				}
+				pp := g.PathTo([]ssa.Instruction{rdc[0]}, false, func(i ssa.Instruction) bool { return i == ssa.Instruction(ta) }, consumer)
+				r.Paths++
+				r.Decide("path", "(*M.Proxy).handle: connection examined for TLS on every request (conn.("+at+"))", pp == nil, "the assertion is on every path from the request read to the modifier", "some requests skip the TLS examination of their connection (e.g. once the session is already secure): later requests of a tunnel carry no req.TLS", ta.Pos())
+			}
+			// from the ok edge of a *tls.Conn assertion every path stores req.TLS before the modifier
+			isTLSStore := func(i ssa.Instruction) bool {
+				st, ok := i.(*ssa.Store)
+				if !ok {
+					return false
+				}
+				fa, ok := st.Addr.(*ssa.FieldAddr)
+				return ok && fa.X == req && fieldObj(fa).Name() == "TLS"
+			}
+			for _, in := range instrs(handle) {
+				ta, isTA := in.(*ssa.TypeAssert)
+				if !isTA || !ta.CommaOk || ta.AssertedType.String() != "*crypto/tls.Conn" {
+					continue
+				}
+				if okv := extractOf(ta, 1); okv != nil {
+					for _, e := range branchesOn(okv) {
+						pp := g.PathTo(blockStart(e.True), true, isTLSStore, consumer)
+						r.Paths++
+						_, form := tlsAssert(extractOf(ta, 0))
+						r.Decide("path", "(*M.Proxy).handle: a TLS connection always gets req.TLS ("+form+" form)", pp == nil, "every path from the ok edge stores req.TLS before the modifier", "a request on a TLS connection can reach the modifier without req.TLS", ta.Pos())
+					}
+				}
+			}
 		}
 		r.Decide("sibling", "(*M.Proxy).handle: TLS state attached for bare and traffic-shaped TLS connections", forms["bare"] && forms["shaped"], "both forms present", fmt.Sprintf("forms found: %v; a TLS connection (bare or wrapped by traffic shaping) would be served without req.TLS", forms), handle.Pos())
 		// the TLS store precedes the modifier
